@@ -488,7 +488,9 @@ def _alias_stream_selection(ctx):
     from ..engine import dtable as _dt
 
     px = ctx.repo.module(PX)
-    run = px.func("ProcProxyThread.run")
+    # helper-transparent view: the selection may live in a method run() calls (`a, b, c = self._helper(..)`); the helper's
+    # body is spliced in, its returned tuple takes the place of the call and is unpacked element-wise by dtable.paths
+    run = flat(ctx, px.func("ProcProxyThread.run"), 2)
     st = f"{PX}:ProcProxyThread.run"
     init = px.func("ProcProxyThread.__init__", raw=True)
     errp = next((a.arg for a in init.args.args + init.args.kwonlyargs if a.arg == "stderr"), None)
